@@ -62,7 +62,11 @@ PoolC04 == << FnS(<<"s","t","r","i","n","g">>, <<>>), FnS(<<"s","t","r","i","n",
            \o << FnS(<<"c","o","n","c","a","t">>, <<AxNode("ancestor-or-self"), Lit(<<"|">>), AxNode("preceding")>>),
                  FnS(<<"b","o","o","l","e","a","n">>, <<AxNode("preceding-sibling")>>),
                  FnS(<<"n","u","m","b","e","r">>, <<AxNode("ancestor")>>), Bin("eq", AxNode("preceding"), Lit(<<"x">>)),
-                 FnS(<<"s","t","r","i","n","g">>, <<Abs(<<>>)>>), FnS(<<"n","o","t">>, <<FnS(<<"n","o","t">>, <<AxNode("child")>>)>>) >>
+                 FnS(<<"s","t","r","i","n","g">>, <<Abs(<<>>)>>), FnS(<<"n","o","t">>, <<FnS(<<"n","o","t">>, <<AxNode("child")>>)>>),
+                 \* the string functions work on the string-value: of an element, the text of its descendants - no comment, no PI
+                 FnS(<<"s","t","r","i","n","g","-","l","e","n","g","t","h">>, <<AxNode("parent")>>), FnS(<<"s","t","r","i","n","g","-","l","e","n","g","t","h">>, <<Abs(<<>>)>>),
+                 FnS(<<"n","o","r","m","a","l","i","z","e","-","s","p","a","c","e">>, <<>>), FnS(<<"s","t","r","i","n","g","-","l","e","n","g","t","h">>, <<AxNode("ancestor-or-self")>>),
+                 FnS(<<"c","o","n","t","a","i","n","s">>, <<AxNode("parent"), Rel(<<Self>>)>>), FnS(<<"s","t","a","r","t","s","-","w","i","t","h">>, <<Rel(<<Self>>), Rel(<<Self>>)>>) >>
 \* absolute paths start at the root wherever they occur: inside predicates and function arguments,
 \* from every start node; multi-step and abbreviated forms
 AllA == Abs(<<DoS, Step("child", T_name("", <<"a">>))>>)
